@@ -1021,26 +1021,34 @@ def g_squeeze(I, rng):
         op = construct(desc, lambda: I.SqueezeOperator(dom, aggressive))
     else:
         op = construct(desc, lambda: I.SqueezeOperator(dom))
-    # expected target
+    # expected target: untouched spaces must stay *identical*; rebuilt ones (singleton axes
+    # removed) are compared by shape / harmonic flag / distances (rel. 1e-12)
     tg = []
-    for (s, d) in items:
+    for (s_, d) in items:
         if d["shape"] == (1,):
             continue
         if aggressive and d["t"] in ("U", "RG") and 1 in d["shape"]:
             keepax = [i for i, n in enumerate(d["shape"]) if n != 1]
             shp = tuple(d["shape"][i] for i in keepax)
             if d["t"] == "U":
-                tg.append(I.UnstructuredDomain(shp))
+                tg.append(("U", shp, None, None))
             elif shp:
-                tg.append(I.RGSpace(shp, tuple(d.get("rdist", d["dist"])[i] for i in keepax), d["harmonic"]))
+                tg.append(("RG", shp, tuple(d.get("rdist", d["dist"])[i] for i in keepax), d["harmonic"]))
             # an RGSpace whose axes are all singletons has no axis left: it disappears
         else:
-            tg.append(s)
+            tg.append(("same", s_))
     exp = []
-    try:
-        exp.append(("target", op.target, I.DomainTuple.make(tuple(tg))))
-    except Exception:
-        pass
+    ok = len(op.target) == len(tg)
+    if ok:
+        for t, e in zip(op.target, tg):
+            if e[0] == "same":
+                ok = ok and (t == e[1])
+            elif e[0] == "U":
+                ok = ok and isinstance(t, I.UnstructuredDomain) and tuple(t.shape) == e[1]
+            else:
+                ok = ok and isinstance(t, I.RGSpace) and tuple(t.shape) == e[1] \
+                    and bool(t.harmonic) == e[3] and np.allclose(t.distances, e[2], rtol=1e-12)
+    exp.append(("target", bool(ok), True))
     tshape = op.target.shape
     return dict(op=op, desc=desc, ref=lambda a: np.asarray(a).reshape(tshape), cap=15, expect=exp,
                 nontrivial=aggressive or len(infos) > 1)
